@@ -47,7 +47,9 @@ class ImplCheck:
             ctx.prove_with_deps(self.PROOF_FILES[-1])
         ctx.trusted.append(self.model_note)
         ctx.assumptions.append(
-            'the liveness theorem (' + self.ID + '_liveness) depends on the '
+            'the liveness theorem (' + self.ID + '_liveness) and the game-level '
+            'theorems built on it (' + self.ID + '_implementation_wins_*, '
+            'C05_play_is_won_or_blocks_with_stale_hold) depend on the '
             'standard-library axiom Classical_Prop.classic; the other theorems '
             'are closed')
 
